@@ -88,3 +88,54 @@ pub fn search() -> Value {
     }
     json!({"violates": false, "evaluated": n})
 }
+
+/// RFC 9110 14.1.1 reference for ONE byte range, positions below 2^63 (written from the grammar, not from the code):
+/// "bytes=" ( 1*DIGIT "-" [ 1*DIGIT ] | "-" 1*DIGIT )
+fn reference_parse(h: &str) -> Option<Range> {
+    let r = h.strip_prefix("bytes=")?;
+    let num = |t: &str| -> Option<u128> { if !t.is_empty() && t.bytes().all(|b| b.is_ascii_digit()) && t.len() <= 30 { t.parse::<u128>().ok() } else { None } };
+    if let Some(t) = r.strip_prefix('-') {
+        let v = num(t)?;
+        return if v <= u128::from(u64::MAX) { Some(Range::Suffix { length: v as u64 }) } else { None };
+    }
+    let (a, b) = r.split_once('-')?;
+    let first = num(a)?;
+    if first > i64::MAX as u128 { return None; }
+    if b.is_empty() { return Some(Range::Int { first: first as u64, last: None }); }
+    let last = num(b)?;
+    if last > i64::MAX as u128 || first > last { return None; }
+    Some(Range::Int { first: first as u64, last: Some(last as u64) })
+}
+
+/// range-parse-search: header texts near the grammar (every string of length <= 5 over "0159-+ ;=" after "bytes=", and boundary
+/// values around 2^63 and 2^64) through the real Range::parse against the reference
+pub fn parse_search() -> Value {
+    let alphabet: Vec<char> = "019-+ ;=".chars().collect();
+    let mut cases: Vec<String> = vec!["".into(), "bytes".into(), "bytes=".into(), "Bytes=0-1".into(), "bytes =0-1".into()];
+    let mut cur: Vec<String> = vec![String::new()];
+    for _ in 0..5 {
+        let mut next = Vec::new();
+        for p in &cur { for c in &alphabet { let mut q = p.clone(); q.push(*c); next.push(q); } }
+        for q in &next { cases.push(format!("bytes={q}")); }
+        cur = next;
+    }
+    for big in ["9223372036854775807", "9223372036854775808", "18446744073709551615", "18446744073709551616", "99999999999999999999999"] {
+        for f in [format!("bytes={big}-"), format!("bytes=-{big}"), format!("bytes=0-{big}"), format!("bytes={big}-{big}"), format!("bytes={big}-0")] { cases.push(f); }
+    }
+    let total = cases.len();
+    for h in cases {
+        let got = Range::parse(&h).ok();
+        let want = reference_parse(&h);
+        if got != want {
+            return json!({"violates": true, "input": {"header": h}, "expected": format!("{want:?}"), "observed": format!("{got:?}"), "replay_args": ["range-parse", h]});
+        }
+    }
+    json!({"violates": false, "input": {"cases": total}, "expected": "Range::parse == RFC 9110 reference", "observed": "equal on every case", "replay_args": ["range-parse-search"]})
+}
+
+/// range-parse <header>
+pub fn parse_one(a: &[String]) -> Value {
+    let got = Range::parse(&a[0]).ok();
+    let want = reference_parse(&a[0]);
+    json!({"violates": got != want, "input": {"header": a[0]}, "expected": format!("{want:?}"), "observed": format!("{got:?}"), "replay_args": ["range-parse", a[0]]})
+}
